@@ -88,6 +88,10 @@ int main(int argc, char** argv)
 			for (auto& e : ref) if (!d.has(e.first.c_str()) || d[e.first.c_str()] != e.second) { printf("REPRODUCED Dic lookup of key '%s' among its prefixes\n", e.first.c_str()); return 1; }
 			std::string last; bool first = true; foreach2(String& k, int v, d) { (void)v; if (!first && !(last < std::string(*k))) { printf("REPRODUCED Dic enumeration not in ascending key order at '%s'\n", *k); return 1; } last = *k; first = false; }
 			d.remove("Accept"); ref.erase("Accept"); if (d.length() != (int)ref.size() || !d.has("Accept-Encoding") || d.has("Accept")) { printf("REPRODUCED Dic::remove of a key that is a prefix of another\n"); return 1; } } }
+		// growth exactly at the threshold: every key inserted around it is found, counted once and removable; set difference with an empty set is a set of its own
+		{ HashMap<int, int> g; for (int i = 0; i < 600; i++) { int k = 256 + i * 7; g[k] = i; if (!g.has(k) || g.length() != i + 1) { printf("REPRODUCED key %d inserted as entry %d is not found / counted right after insertion (table growth)\n", k, i + 1); return 1; } g[k] = i; if (g.length() != i + 1) { printf("REPRODUCED second assignment to key %d adds a duplicate entry\n", k); return 1; } }
+		  HashDic<int> hd; for (int i = 0; i < 400; i++) hd[String::f("key-%i", i)] = i; for (int i = 0; i < 400; i++) if (!hd.has(String::f("key-%i", i))) { printf("REPRODUCED HashDic loses key-%d\n", i); return 1; }
+		  Set<int> a, e; a << 1 << 2 << 3; Set<int> d = a - e; d << 99; d.remove(1); if (a.length() != 3 || !a.has(1) || a.has(99)) { printf("REPRODUCED (a - {}) shares storage with a\n"); return 1; } }
 		printf("OK %ld sequences\n", runs); return 0;
 	}
 	return 2;
